@@ -129,10 +129,11 @@ VARIABLES pos,        \* next event
           bbuf,       \* bbuf[ba]: buffer of active batch ba (function with finite domain)
           lastUnref,  \* active batches whose most recent event was an unref
           released,   \* batches seen and released since the last reset
+          compressed, \* the current run reads compressed frames (reset event with b = 1)
           verdict     \* "" or the rule violated at position pos-1
-tvars == <<pos, live, freed, bbuf, lastUnref, released, verdict>>
+tvars == <<pos, live, freed, bbuf, lastUnref, released, compressed, verdict>>
 
-TInit == /\ pos = 1 /\ live = {} /\ freed = {} /\ bbuf = <<>> /\ lastUnref = {} /\ released = {} /\ verdict = ""
+TInit == /\ pos = 1 /\ live = {} /\ freed = {} /\ bbuf = <<>> /\ lastUnref = {} /\ released = {} /\ compressed = TRUE /\ verdict = ""
 
 ActiveOn(b) == {ba \in DOMAIN bbuf : bbuf[ba] = b}
 Step ==
@@ -140,13 +141,15 @@ Step ==
   /\ LET ev == Trace[pos] IN
      /\ pos' = pos + 1
      /\ CASE ev.e = "reset" ->      \* next recorded run: pools are process-wide, but ids are per run
-               /\ live' = {} /\ freed' = {} /\ bbuf' = <<>> /\ lastUnref' = {} /\ released' = {} /\ verdict' = ""
+               /\ live' = {} /\ freed' = {} /\ bbuf' = <<>> /\ lastUnref' = {} /\ released' = {} /\ compressed' = (ev.b = 1) /\ verdict' = ""
           [] ev.e = "bnew" ->       \* newBufferFromBytes
                /\ verdict' = IF ev.b \in live THEN "buffer handed out while still in use" ELSE ""
                /\ live' = live \cup {ev.b} /\ freed' = freed \ {ev.b}
-               /\ UNCHANGED <<bbuf, lastUnref, released>>
+               /\ UNCHANGED <<bbuf, lastUnref, released, compressed>>
           [] ev.e = "bfree" ->      \* buffer.free
-               /\ verdict' = IF ev.b \in freed THEN "double free"
+               \* (with compression the decompression targets come from newBuffer, which has no
+               \* hook: a buffer may have been handed out again unseen, so a second free proves nothing)
+               /\ verdict' = IF ev.b \in freed /\ ~compressed THEN "double free"
                              ELSE IF \E ba \in ActiveOn(ev.b) : ba \notin lastUnref THEN "buffer freed while a batch still references it"
                              ELSE ""
                /\ live' = live \ {ev.b} /\ freed' = freed \cup {ev.b}
@@ -154,16 +157,18 @@ Step ==
                /\ bbuf' = [ba \in (DOMAIN bbuf) \ ActiveOn(ev.b) |-> bbuf[ba]]
                /\ lastUnref' = lastUnref \ ActiveOn(ev.b)
                /\ released' = released \cup ActiveOn(ev.b)
+               /\ UNCHANGED compressed
           [] ev.e = "banew" ->      \* newBatch(buf)
                /\ verdict' = IF ev.ba \in DOMAIN bbuf THEN "batch reused while still referenced"
-                             ELSE IF ev.b \in freed THEN "batch built on a freed buffer"
+                             \* (a freed buffer may have been handed out again by newBuffer, which has no hook)
                              ELSE IF ActiveOn(ev.b) # {} THEN "two batches on one buffer"
                              ELSE ""
                /\ bbuf' = [ba \in (DOMAIN bbuf) \cup {ev.ba} |-> IF ba = ev.ba THEN ev.b ELSE bbuf[ba]]
                /\ live' = live \cup {ev.b}          \* decompression targets are first seen here
+               /\ freed' = freed \ {ev.b}
                /\ lastUnref' = lastUnref \ {ev.ba}
                /\ released' = released \ {ev.ba}
-               /\ UNCHANGED freed
+               /\ UNCHANGED compressed
           [] ev.e = "baunref" ->    \* batch.Unref (logged before the decrement)
                \* a batch not seen since the reset may stem from before it (late event): accepted
                /\ verdict' = IF ev.ba \notin DOMAIN bbuf
@@ -172,7 +177,7 @@ Step ==
                              ELSE IF ev.b \in freed THEN "unref after the buffer was freed"
                              ELSE ""
                /\ lastUnref' = IF ev.ba \in DOMAIN bbuf THEN lastUnref \cup {ev.ba} ELSE lastUnref
-               /\ UNCHANGED <<live, freed, bbuf, released>>
+               /\ UNCHANGED <<live, freed, bbuf, released, compressed>>
 TDone == pos > Len(Trace) /\ UNCHANGED tvars
 
 \* ======================================================================
